@@ -21,7 +21,6 @@ import (
 	"context"
 	"errors"
 	"io"
-	"log/slog"
 	"net"
 	"net/http"
 	"net/http/httptest"
@@ -41,7 +40,6 @@ import (
 	"github.com/thushan/olla/internal/config"
 	"github.com/thushan/olla/internal/core/domain"
 	"github.com/thushan/olla/internal/core/ports"
-	"github.com/thushan/olla/internal/logger"
 	"github.com/thushan/olla/internal/zz_verif/vlib"
 )
 
@@ -97,18 +95,6 @@ func (c *scriptClient) Do(req *http.Request) (*http.Response, error) {
 
 // ---------------------------------------------------------------- logger that counts "recovered" decisions
 
-type countHandler struct{ recovered *int64 }
-
-func (h countHandler) Enabled(_ context.Context, l slog.Level) bool { return l >= slog.LevelInfo }
-func (h countHandler) Handle(_ context.Context, r slog.Record) error {
-	if strings.HasPrefix(r.Message, "Endpoint recovered, triggering") {
-		atomic.AddInt64(h.recovered, 1)
-	}
-	return nil
-}
-func (h countHandler) WithAttrs([]slog.Attr) slog.Handler { return h }
-func (h countHandler) WithGroup(string) slog.Handler      { return h }
-
 // ---------------------------------------------------------------- glue the proxy layer needs
 
 type discoAdapter struct{ repo domain.EndpointRepository }
@@ -147,7 +133,9 @@ type world struct {
 	client    *scriptClient
 	retry     *core.RetryHandler
 	hcURL     string
-	recovered int64 // "decided to fire" log lines
+	expected  int64 // not-healthy -> healthy transitions seen in the repository (only used to know how long to wait)
+	cbStarted int64 // callbacks entered
+	cbDone    int64 // callbacks returned
 	mu        sync.Mutex
 	cbStamps  []int64 // LastChecked (UnixNano) of the endpoint copy each callback received
 }
@@ -160,11 +148,12 @@ func newWorld(interval, timeout time.Duration) (*world, error) {
 	if err != nil {
 		return nil, err
 	}
-	lg := logger.NewPlainStyledLogger(slog.New(countHandler{&w.recovered}))
-	w.chk = health.NewHTTPHealthChecker(w.repo, lg, w.client)
+	w.chk = health.NewHTTPHealthChecker(w.repo, vlib.QuietLogger(), w.client)
 	w.chk.SetRecoveryCallback(health.RecoveryCallbackFunc(func(cbCtx context.Context, ep *domain.Endpoint) error {
 		// the production callback (model re-discovery) does I/O with the context it is handed: a callback whose
 		// context is already dead when it gets going re-discovers nothing and is not counted as one
+		atomic.AddInt64(&w.cbStarted, 1)
+		defer atomic.AddInt64(&w.cbDone, 1)
 		select {
 		case <-cbCtx.Done():
 			return cbCtx.Err()
@@ -260,6 +249,9 @@ func runOnce(interval, timeout time.Duration, ops []op) (outOps []op, obs []int6
 		if (o[0] == kCheck || o[0] == kSched || o[0] == kProxyFail) && !after.LastChecked.Equal(before.LastChecked) {
 			ran = 1
 			stamps[i] = after.LastChecked.UnixNano()
+			if after.Status == domain.StatusHealthy && before.Status != domain.StatusHealthy && before.Status != domain.StatusUnknown {
+				w.expected++
+			}
 		}
 		reached := int64(0)
 		if atomic.LoadInt64(&w.client.calls) > callsBefore {
@@ -276,19 +268,21 @@ func runOnce(interval, timeout time.Duration, ops []op) (outOps []op, obs []int6
 		}
 		obs = append(obs, ran, reached, statusIdx[after.Status], delay, 0, int64(after.ConsecutiveFailures), int64(after.BackoffMultiplier), f, int64(open), att)
 	}
-	// recovery callbacks run in their own goroutines: wait for every decided one, then settle
+	// recovery callbacks run in their own goroutines. How long to wait is decided from what can be seen from
+	// outside, never from log lines: every callback that was entered must have returned, and as many must have
+	// come as the repository showed recoveries (a missing one is waited for up to 2 s before it is reported
+	// missing); then a short grace period for callbacks nobody expected.
 	deadline := time.Now().Add(2 * time.Second)
-	for time.Now().Before(deadline) {
-		w.mu.Lock()
-		n := int64(len(w.cbStamps))
-		w.mu.Unlock()
-		if n >= atomic.LoadInt64(&w.recovered) {
-			break
-		}
+	settled := func() bool {
+		done, started := atomic.LoadInt64(&w.cbDone), atomic.LoadInt64(&w.cbStarted)
+		return done >= started && done >= w.expected
+	}
+	for time.Now().Before(deadline) && !settled() {
 		time.Sleep(200 * time.Microsecond)
 	}
-	if atomic.LoadInt64(&w.recovered) == 0 {
-		time.Sleep(5 * time.Millisecond) // in case the log line the fast path keys on was reworded
+	time.Sleep(3 * time.Millisecond)
+	for time.Now().Before(deadline) && atomic.LoadInt64(&w.cbDone) < atomic.LoadInt64(&w.cbStarted) {
+		time.Sleep(200 * time.Microsecond)
 	}
 	w.mu.Lock()
 	for _, s := range w.cbStamps {
